@@ -220,8 +220,11 @@ def radio_call(ck, skip_defined=False):
                 # an operation applied to events outside the validity range must be defined for ANY geometry
                 # (otherwise NaN * 0 = NaN survives the masking): no in-range precondition may be used
                 cnt["unmasked"] = cnt.get("unmasked", 0) + 1
+                # the clause is about events OUTSIDE the window: the counter-model is replayed on such an event (its row must stay exactly zero
+                # and finite); what the same numbers do to an in-range event is the business of the in-range obligations
                 ck.prove("%s/defined.unmasked#%d%s" % (qn, cnt["unmasked"], tag), box + pc + ([dom] if dom is not sp.true else []), cond, kind="defined",
-                         replay=lambda m: native_radio(ck, m), search=lambda: native_radio(ck), boxes={s_: names[n] for n, s_ in sy.items()},
+                         replay=lambda m: native_radio(ck, dict(m, altDec=15.0)), search=lambda: native_radio(ck), boxes={s_: names[n] for n, s_ in sy.items()},
+                         complete=False,  # numbered by occurrence: after a restructuring "#1" is another operation, so only a native witness makes it a failure
                          clause="%s at %s is applied to events outside [0,10] km too and must be defined for every geometry: %s" % (what, where, str(cond)[:100]))
                 continue
             if what != "division" or not (cond.free_symbols <= {sy["lenDec"], sy["altDec"]}):
